@@ -55,7 +55,15 @@ def wfSlotsProg (w : World) (p : Nat) (P : Program) : Bool :=
     | .inh off idx =>
       hasBit fl nameInherited &&
       (match P.inherit[off]? with
-       | some ih => (match w.progs[ih.prog]? with | some Q => idx < Q.flags.length | none => false)
+       | some ih =>
+         (match w.progs[ih.prog]? with
+          | some Q =>
+            -- in range, and "undefined" is inherited with the slot: the NAME_UNDEFINED test of local calls and
+            -- function pointers looks at THIS slot only
+            (match Q.flags[idx]? with
+             | some fq => hasBit fl nameUndefined == hasBit fq nameUndefined
+             | none => false)
+          | none => false)
        | none => false)
     | .defn fi _ => !(hasBit fl nameInherited) && fi < P.ft.length)
 
